@@ -1,0 +1,300 @@
+//! Verification hooks. This module only exists when building with `--cfg wild_verif`. It lets an
+//! external test harness (a) call a few crate-private pure functions, (b) inject faults or pause
+//! the link at named points, (c) perturb thread scheduling at named sites and (d) record an event
+//! log of the parallel hand-off protocols. Everything is driven by `WILD_VERIF_*` environment
+//! variables; with none of them set every hook is a no-op.
+
+use std::io::Read as _;
+use std::io::Write as _;
+use std::sync::Mutex;
+use std::sync::OnceLock;
+use std::sync::atomic::AtomicU64;
+use std::sync::atomic::Ordering;
+
+/// Thin public wrappers over crate-private pure functions.
+pub mod api {
+    use crate::alignment::Alignment;
+    use crate::platform::Arch as _;
+    use crate::platform::Relaxation as _;
+
+    /// `Some(exponent)` if `raw` is accepted as an alignment.
+    pub fn alignment_new(raw: u64) -> Option<u8> {
+        Alignment::new(raw).ok().map(|a| a.exponent)
+    }
+
+    pub fn alignment_value(exponent: u8) -> u64 {
+        Alignment { exponent }.value()
+    }
+
+    pub fn align_up(exponent: u8, value: u64) -> u64 {
+        Alignment { exponent }.align_up(value)
+    }
+
+    pub fn align_down(exponent: u8, value: u64) -> u64 {
+        Alignment { exponent }.align_down(value)
+    }
+
+    pub fn align_modulo(exponent: u8, ref_offset: u64, offset: u64) -> u64 {
+        Alignment { exponent }.align_modulo(ref_offset, offset)
+    }
+
+    /// Runs the thunk-block assignment kernel over `(start, end)` object ranges. Returns the number
+    /// of blocks and, per object, `(block_id, is_owner)` of the last assignment made for it.
+    pub fn assign_thunk_blocks(
+        objects: &[(u64, u64)],
+        max_branch_range: u64,
+    ) -> (usize, Vec<(u32, bool)>) {
+        let mut out = vec![(u32::MAX, false); objects.len()];
+        let n = crate::thunks::verif_assign_thunk_blocks(objects, max_branch_range, &mut out);
+        (n, out)
+    }
+
+    pub struct RelaxOut {
+        pub bytes: Vec<u8>,
+        pub offset: u64,
+        pub addend: i64,
+        pub rel_info: linker_utils::elf::RelocationKindInfo,
+        pub mandatory: bool,
+        pub kind: String,
+    }
+
+    pub const VF_ABSOLUTE: u16 = 1 << 0;
+    pub const VF_DYNAMIC: u16 = 1 << 1;
+    pub const VF_IFUNC: u16 = 1 << 2;
+    pub const VF_NON_INTERPOSABLE: u16 = 1 << 3;
+
+    /// Asks the x86-64 back end whether it would relax the relocation at `offset` and, if so,
+    /// applies the rewrite to a copy of `bytes`. `output_kind`: 0 = static non-PIE, 1 = static
+    /// PIE, 2 = dynamic non-PIE, 3 = dynamic PIE, 4 = shared object.
+    pub fn x86_64_relax(
+        r_type: u32,
+        bytes: &[u8],
+        offset: u64,
+        value_flags: u16,
+        output_kind: u8,
+        executable_section: bool,
+        addend: i64,
+    ) -> Option<RelaxOut> {
+        use crate::args::RelocationModel;
+        use crate::output_kind::OutputKind;
+        let kind = match output_kind {
+            0 => OutputKind::StaticExecutable(RelocationModel::NonRelocatable),
+            1 => OutputKind::StaticExecutable(RelocationModel::Relocatable),
+            2 => OutputKind::DynamicExecutable(RelocationModel::NonRelocatable),
+            3 => OutputKind::DynamicExecutable(RelocationModel::Relocatable),
+            _ => OutputKind::SharedObject,
+        };
+        let section_flags = if executable_section {
+            linker_utils::elf::shf::ALLOC.with(linker_utils::elf::shf::EXECINSTR)
+        } else {
+            linker_utils::elf::shf::ALLOC.with(linker_utils::elf::shf::WRITE)
+        };
+        let relaxation = crate::elf_x86_64::ElfX86_64::new_relaxation(
+            r_type,
+            bytes,
+            offset,
+            crate::value_flags::ValueFlags::from_bits_retain(value_flags),
+            kind,
+            section_flags,
+            true,
+            None,
+        )?;
+        let mut out = bytes.to_vec();
+        let mut offset = offset;
+        let mut addend = addend;
+        relaxation.apply(&mut out, &mut offset, &mut addend);
+        Some(RelaxOut {
+            bytes: out,
+            offset,
+            addend,
+            rel_info: relaxation.rel_info(),
+            mandatory: relaxation.is_mandatory(),
+            kind: format!("{:?}", relaxation.debug_kind()),
+        })
+    }
+}
+
+fn env(name: &str) -> Option<&'static str> {
+    static CACHE: OnceLock<Mutex<std::collections::HashMap<String, Option<&'static str>>>> =
+        OnceLock::new();
+    let mut cache = CACHE.get_or_init(Default::default).lock().unwrap();
+    *cache.entry(name.to_owned()).or_insert_with(|| {
+        std::env::var(name)
+            .ok()
+            .map(|v| &*Box::leak(v.into_boxed_str()))
+    })
+}
+
+/// A named point in the link at which the harness may inject a fault
+/// (`WILD_VERIF_CRASH=<name>:<kind>`, kind one of error, panic, abort, segv, kill, exit0) or pause
+/// the link (`WILD_VERIF_PAUSE=<name>:<fifo_out>:<fifo_in>`: writes the name to `fifo_out`, then
+/// blocks until a byte can be read from `fifo_in`). `WILD_VERIF_POINTS=<file>` appends the name of
+/// every point reached. Returns an error for kind `error`.
+pub fn point(name: &str) -> crate::error::Result {
+    if let Some(path) = env("WILD_VERIF_POINTS")
+        && let Ok(mut f) = std::fs::OpenOptions::new()
+            .append(true)
+            .create(true)
+            .open(path)
+    {
+        let _ = writeln!(f, "{name}");
+    }
+    if let Some(spec) = env("WILD_VERIF_PAUSE") {
+        let mut parts = spec.splitn(3, ':');
+        if parts.next() == Some(name)
+            && let (Some(fifo_out), Some(fifo_in)) = (parts.next(), parts.next())
+        {
+            if let Ok(mut f) = std::fs::OpenOptions::new().write(true).open(fifo_out) {
+                let _ = writeln!(f, "{name}");
+            }
+            if let Ok(mut f) = std::fs::File::open(fifo_in) {
+                let mut b = [0u8; 1];
+                let _ = f.read(&mut b);
+            }
+        }
+    }
+    if let Some(spec) = env("WILD_VERIF_CRASH")
+        && let Some((point_name, kind)) = spec.split_once(':')
+        && point_name == name
+    {
+        match kind {
+            "error" => crate::bail!("verif: injected error at {name}"),
+            "panic" => panic!("verif: injected panic at {name}"),
+            "abort" => std::process::abort(),
+            "segv" => unsafe {
+                libc::raise(libc::SIGSEGV);
+            },
+            "kill" => unsafe {
+                libc::raise(libc::SIGKILL);
+            },
+            "exit0" => std::process::exit(0),
+            _ => {}
+        }
+    }
+    Ok(())
+}
+
+/// Like `point`, for call sites that cannot propagate an error (kind `error` is ignored).
+pub fn point_noerr(name: &str) {
+    let _ = point(name);
+}
+
+struct Sched {
+    seed: u64,
+    permille: u64,
+    max_us: u64,
+}
+
+fn sched() -> Option<&'static Sched> {
+    static SCHED: OnceLock<Option<Sched>> = OnceLock::new();
+    SCHED
+        .get_or_init(|| {
+            let spec = std::env::var("WILD_VERIF_SCHED").ok()?;
+            let mut p = spec.split(':').map(|s| s.parse::<u64>().ok());
+            Some(Sched {
+                seed: p.next()??,
+                permille: p.next()??,
+                max_us: p.next()??,
+            })
+        })
+        .as_ref()
+}
+
+static SCHED_VISITS: AtomicU64 = AtomicU64::new(0);
+
+/// Schedule perturbation. With `WILD_VERIF_SCHED=<seed>:<permille>:<max_us>` set, roughly
+/// `permille`/1000 of visits yield, spin or sleep for up to `max_us` microseconds, chosen by a hash
+/// of (seed, site, visit number).
+#[inline]
+pub fn sched_point(site: u32) {
+    let Some(s) = sched() else {
+        return;
+    };
+    let visit = SCHED_VISITS.fetch_add(1, Ordering::Relaxed);
+    let mut x = s.seed ^ (u64::from(site) << 32) ^ visit.wrapping_mul(0x9e37_79b9_7f4a_7c15);
+    x ^= x << 13;
+    x ^= x >> 7;
+    x ^= x << 17;
+    x = x.wrapping_mul(0x2545_f491_4f6c_dd1d);
+    if x % 1000 >= s.permille {
+        return;
+    }
+    let r = (x >> 20) % 3;
+    let us = if s.max_us == 0 {
+        0
+    } else {
+        (x >> 24) % (s.max_us + 1)
+    };
+    match r {
+        0 => std::thread::yield_now(),
+        1 => {
+            let start = std::time::Instant::now();
+            while (start.elapsed().as_micros() as u64) < us {
+                std::hint::spin_loop();
+            }
+        }
+        _ => std::thread::sleep(std::time::Duration::from_micros(us)),
+    }
+}
+
+static EVENT_SEQ: AtomicU64 = AtomicU64::new(0);
+
+fn events() -> Option<&'static Mutex<Vec<(u64, &'static str, u64, u64, u64)>>> {
+    static EVENTS: OnceLock<Option<Mutex<Vec<(u64, &'static str, u64, u64, u64)>>>> =
+        OnceLock::new();
+    EVENTS
+        .get_or_init(|| env("WILD_VERIF_EVENTS").map(|_| Mutex::new(Vec::new())))
+        .as_ref()
+}
+
+fn thread_tag() -> u64 {
+    thread_local! {
+        static TAG: u64 = {
+            static NEXT: AtomicU64 = AtomicU64::new(1);
+            NEXT.fetch_add(1, Ordering::Relaxed)
+        };
+    }
+    TAG.with(|t| *t)
+}
+
+/// Records an event of the parallel protocols when `WILD_VERIF_EVENTS=<file>` is set. Call while
+/// holding whatever lock makes the recorded transition atomic, so that the global sequence number
+/// orders events consistently with the protocol state.
+#[inline]
+pub fn event(kind: &'static str, a: u64, b: u64) {
+    if let Some(log) = events() {
+        let seq = EVENT_SEQ.fetch_add(1, Ordering::SeqCst);
+        log.lock().unwrap().push((seq, kind, a, b, thread_tag()));
+    }
+}
+
+/// Appends the recorded events to the file named by `WILD_VERIF_EVENTS`, one per line:
+/// `<seq> <kind> <a> <b> <thread>`, preceded by a `# phase <name>` line.
+pub fn flush_events(phase: &str) {
+    let Some(log) = events() else {
+        return;
+    };
+    let Some(path) = env("WILD_VERIF_EVENTS") else {
+        return;
+    };
+    let mut events = std::mem::take(&mut *log.lock().unwrap());
+    events.sort_unstable();
+    if let Ok(f) = std::fs::OpenOptions::new()
+        .append(true)
+        .create(true)
+        .open(path)
+    {
+        let mut f = std::io::BufWriter::new(f);
+        let _ = writeln!(f, "# phase {phase}");
+        for (seq, kind, a, b, t) in events {
+            let _ = writeln!(f, "{seq} {kind} {a} {b} {t}");
+        }
+    }
+}
+
+/// Reports a broken invariant observed by a quiescence check and exits with status 97.
+pub fn invariant_failed(what: &str) -> ! {
+    eprintln!("VERIF-INVARIANT {what}");
+    flush_events("invariant-failed");
+    std::process::exit(97);
+}
